@@ -7,6 +7,14 @@ From Centro Require Import Base.Sx Base.ThresholdNum Model.ThresholdLang Gen.Thr
 Import ListNotations.
 Open Scope Q_scope.
 
+(* the body of get_threshold, as regenerated from the source, returns exactly the specified closed form
+   (correction factor, range clamp of the global threshold, dispatch, second correction factor on the local
+   array, band [g*0.7, g*1.5] intersected with the range, low clamp then high clamp, per-object sentinel) *)
+Theorem get_threshold_closed_form : forall (mul : Q -> Q -> Q) inp lo hi,
+  run mul inp get_threshold_prog lo hi = ref_run mul inp lo hi.
+Proof. exact run_eq_ref_lemma. Qed.
+Print Assumptions get_threshold_closed_form.
+
 (* S2: whatever the product, the modifier, the raw thresholds and the correction factor, the global
    threshold returned by the regenerated get_threshold lies within the requested limits (each limit
    may be absent) *)
